@@ -145,7 +145,12 @@ class Flow(object):
                         names = {n: snames[n] for n in outer_names}
                         names.update({n: tnames[n] for n in self.scope.globals if n in tnames})
                         return names
-                    return {n: snames[n] for n in outer_names}
+                    names = {n: snames[n] for n in outer_names}
+                    if self.scope is self.scope.top:
+                        # what functions bind through a global declaration is a module name too
+                        names.update({n: v for n, v in self.scope._global_names.items()
+                                      if n not in self.scope.locals})
+                    return names
             else:
                 return {}
 
